@@ -743,15 +743,20 @@ func off[S any, F any](s *S, f *F) uintptr { return uintptr(unsafe.Pointer(f)) -
             self.w('\tmem, size := unsafe.Pointer(g), unsafe.Sizeof(*g)')
             self.w('\tps := &g.s\n\tpps := &ps')
             self.w('\tother := new(struct {\n\t\tq [4]uint64\n\t\tw string\n\t})')
+            self.w('\tsl := []%s{g.s, g.s}\n\tarr := &[1]%s{g.s}\n\tmp := map[string]%s{"a": g.s}\n\tchn := make(chan %s, 1)\n\t_, _, _, _ = sl, arr, mp, chn' % (S, S, S, S))
             for what, arg, m, sz in (
                 ('the struct by value', 'g.s', 'mem', 'size'), ('pointer to pointer', 'pps', 'mem', 'size'), ('pointer to another struct', 'other', 'unsafe.Pointer(other)', 'unsafe.Sizeof(*other)'),
                 ('untyped nil', 'nil', 'nil', '0'), ('an int', '42', 'nil', '0'), ('unsafe.Pointer to the struct', 'unsafe.Pointer(ps)', 'mem', 'size'),
                 ('uintptr of the struct', 'uintptr(unsafe.Pointer(ps))', 'mem', 'size'),
+                ('a slice of the struct', 'sl', 'unsafe.Pointer(&sl[0])', '2*unsafe.Sizeof(sl[0])'), ('pointer to an array of the struct', 'arr', 'unsafe.Pointer(arr)', 'unsafe.Sizeof(*arr)'),
                 ('typed nil *int', '(*int)(nil)', 'nil', '0'), ('typed nil pointer to pointer', '(**%s)(nil)' % S, 'nil', '0'),
                 ('typed nil pointer to another struct', '(*struct {\n\t\tq [4]uint64\n\t\tw string\n\t})(nil)', 'nil', '0'),
                 ('typed nil pointer to a look-alike', '(*xa.Box)(nil)', 'nil', '0')):
                 self.w('\trt.WrongArg("C02", c, %s, %s, %s, func() { l.Gett(%s) })' % (q('Gett(' + what + ')'), m, sz, arg))
                 self.w('\trt.WrongArg("C02", c, %s, %s, %s, func() { l.Putt(%s, v) })' % (q('Putt(' + what + ')'), m, sz, arg))
+            # containers the run time owns: only read through them (a silently accepted write could corrupt the run time)
+            self.w('\trt.WrongArg("C02", c, "Gett(a map of the struct)", nil, 0, func() { l.Gett(mp) })')
+            self.w('\trt.WrongArg("C02", c, "Gett(a channel of the struct)", nil, 0, func() { l.Gett(chn) })')
             self.case_end('C02/%s/reflector-wrong-arg' % S, True)
 
     def emit_must_fail(self, st, L, fam, K, tys, names, targs, args, detail):
